@@ -115,6 +115,9 @@ def main():
             pass
         cfg = dict(ncell=ncell, nsub=nsub, periodic=periodic, box=(anchor, sides), blocks=blocks, gamma=r.choice([1.4, 5. / 3.]),
                    cfl=0.2, total_time=1e-3 * scale, dump_interval=0., backups=1)
+        if sides[0] == sides[1] == sides[2] and r.chance(0.6):
+            # optional component: turbulence forcing (needs a cubic box); its random stream and amplitudes are part of the dump
+            cfg["turbulence"] = dict(dt=1e-6 * scale, power=10 ** r.uniform(5, 9) * scale ** 2 / (1e-3 * scale) ** 3 * 1e-9, seed=r.randint(1, 10 ** 5))
         ks = list(range(1, N)) if not quick else sorted(set([1, 2, r.randint(3, N - 1)]))
         for k in ks:
             jobs.append((i, cfg, N, [k], exe, root, None))
@@ -147,8 +150,11 @@ def main():
                 tot[k] = tot.get(k, 0) + v
             if out["st"].get("restarts"):
                 distinct.add((out["i"], tuple(out["stops"])))
+                if out["cfg"].get("turbulence"):
+                    tot["restarts_with_turbulence_forcing"] = tot.get("restarts_with_turbulence_forcing", 0) + out["st"]["restarts"]
             if len(chk.coverage["samples"]) < 3:
                 chk.add_sample(dict(sides=out["cfg"]["box"][1], ncell=out["cfg"]["ncell"], nsub=out["cfg"]["nsub"], periodic=out["cfg"]["periodic"],
+                                    turbulence=bool(out["cfg"].get("turbulence")),
                                     N=out["N"], stops=out["stops"], monitor=out["st"]))
     # (b) class level round trips
     try:
